@@ -494,3 +494,4 @@ def run(chk, F):
         "produce equal output are not decided",
         "masm/arm64.rs (cfg(aarch64)) is not analysed on this host",
     ]
+    from rules import a64; a64.run_c02(chk, F)  # noqa: E702  arm64 siblings (aarch64 fact set)
